@@ -153,4 +153,24 @@ theorem debug_is_chaos_src : debug_is_chaos = debug_is_chaos_expected := rfl
 def filtering_data_cond_expected : String := "fctx.requestResult != nil"
 theorem filtering_data_cond_src : filtering_data_cond = filtering_data_cond_expected := rfl
 
+/-! Round 4: production wiring and the order of `Middleware.Wrap`. -/
+def wire_group_lookup_expected : String := "c.FilteringGroups[srvGrp.FilteringGroup]"
+theorem wire_group_lookup_src : wire_group_lookup = wire_group_lookup_expected := rfl
+def wire_yaml_parental_expected : String := "&filter.ConfigParental{ PauseSchedule: nil, BlockedServices: nil, Enabled: c.Enabled, AdultBlockingEnabled: c.BlockAdult, SafeSearchGeneralEnabled: c.GeneralSafeSearch, SafeSearchYouTubeEnabled: c.YoutubeSafeSearch, }"
+theorem wire_yaml_parental_src : wire_yaml_parental = wire_yaml_parental_expected := rfl
+def wire_yaml_safebrowsing_expected : String := "&filter.ConfigSafeBrowsing{ Enabled: c.Enabled, DangerousDomainsEnabled: c.BlockDangerousDomains, NewlyRegisteredDomainsEnabled: c.BlockNewlyRegisteredDomains, }"
+theorem wire_yaml_safebrowsing_src : wire_yaml_safebrowsing = wire_yaml_safebrowsing_expected := rfl
+def wire_yaml_rulelists_expected : String := "&filter.ConfigRuleList{ IDs: ids, Enabled: c.Enabled, }"
+theorem wire_yaml_rulelists_src : wire_yaml_rulelists = wire_yaml_rulelists_expected := rfl
+def wire_msg_ctor_expected : String := "&dnsmsg.ConstructorConfig{ Cloner: b.cloner, BlockingMode: &dnsmsg.BlockingModeNullIP{}, StructuredErrors: b.sdeConf, FilteredResponseTTL: fltConf.ResponseTTL.Duration, EDEEnabled: fltConf.EDEEnabled, }"
+theorem wire_msg_ctor_src : wire_msg_ctor = wire_msg_ctor_expected := rfl
+def wire_nrd_conf_expected : String := "b.conf.SafeBrowsing"
+theorem wire_nrd_conf_src : wire_nrd_conf = wire_nrd_conf_expected := rfl
+def wrap_calls_expected : String := "filterRequest,Err,ServeDNS,filterResponse,setFilteredResponse,WriteMsg"
+theorem wrap_calls_src : wrap_calls = wrap_calls_expected := rfl
+def wrap_conds_expected : String := "err != nil | err != nil | fctx.isDebug | err != nil | fctx.filteredResponse != fctx.originalResponse"
+theorem wrap_conds_src : wrap_conds = wrap_conds_expected := rfl
+def reqinfo_pool_reset_expected : String := "mw.messages"
+theorem reqinfo_pool_reset_src : reqinfo_pool_reset = reqinfo_pool_reset_expected := rfl
+
 end Agd.Tie.C02
